@@ -25,6 +25,18 @@ TEXTS = {
         "level_note": "Trusted base: the obligation checker itself (nfstatic/rules/c06.py), the semantics of F.linear / broadcasting comparison / repeat-reshape-transpose in T-OPS, A-NET (activation callables are elementwise), nn.BatchNorm1d and nn.Dropout act per feature. obligations == discharged on the pinned tree.",
         "technique": "static type system (degree typing) with syntactically discharged obligations; who-may-write and sibling cross-check of the two copies",
     },
+    "C15": {
+        "level_text": "Sound necessary condition decided by dataflow: every constructor is abstractly interpreted with an RNG taint, every evaluation entry point for its read set and write set; a function-determining value (random draw, mutated statistic/flag/parameter, sub-module) that is not a parameter, persistent buffer or registered module is reported at the storing statement. Covers all classes, configurations and constructor branches at once. Bit-identity of the reloaded function is not decided; it follows from this plus determinism of torch kernels (assumed).",
+        "design_ref": "DESIGN.md 1.5, 2.C15",
+        "level_note": "Trusted: T-NN (what travels in a state dict), T-OPS list of random sources, the premise that both models are built with equal constructor arguments.",
+        "technique": "static taint dataflow over constructors (RNG provenance) joined with evaluation-path read/write sets and attribute-kind classification",
+    },
+    "C16": {
+        "level_text": "Necessary condition for differentiability decided for all inputs and parameters: a may-dependence analysis over every differentiable entry point proves that no value produced by detach/.data/.item()/no_grad/torch.tensor(tensor) reaches a returned float result in a value position (index and comparison positions are exempt), and that every nn.Parameter reaches some result. Gradient values versus finite differences, finiteness, and the third-party integrator's backward are out of reach and not claimed.",
+        "design_ref": "DESIGN.md 1.5, 2.C16",
+        "level_note": "Trusted: T-OPS (which operations sever the graph / are piecewise constant), A-NET, A-UMNN, autograd's own correctness.",
+        "technique": "static interprocedural taint analysis (gradient-severing sources to returned-value sinks) + parameter reachability",
+    },
 }
 
 NOT_CLAIMED = {}
